@@ -12,6 +12,7 @@ UNITS = {
              "props": {"C16": ["CxVerif.Props.C16.Sha256", "CxVerif.Props.C16.Blake2"]}},
     "hashlen": {"driver": "HashLen", "harness": "ops_hashlen", "gens": "hashlen",
                 "props": {"C01": ["CxVerif.Props.C20.HashLen"], "C20": ["CxVerif.Props.C20.HashLen"]}},
+    "long": {"driver": "Long", "harness": "ops_long", "gens": "long", "props": {}},
     "leak": {"driver": None, "harness": None, "gens": None, "props": {"C19": ["CxVerif.Props.C19.Leak"]}},
     "blake2": {"driver": "Blake2", "harness": "ops_blake2", "gens": "blake2",
                "props": {"C01": ["CxVerif.Props.C01.Blake2"], "C02": ["CxVerif.Props.C02.Blake2"], "C20": ["CxVerif.Props.C20.Blake2"]}},
